@@ -136,6 +136,26 @@ public:
     BN_free(s);
     return found;
   }
+  // Choose a new private exponent such that the public key starts with byte b (a legal key: 1 in 256).
+  bool rekey_first_byte(unsigned char b, uint64_t seed, int tries = 20000) {
+    BN_CTX* ctx = BN_CTX_new();
+    BIGNUM* y = BN_new();
+    bool found = false;
+    for (int i = 0; i < tries && !found; i++) {
+      std::string x = mse_sha1("mse-private-fb-" + std::to_string(seed) + "-" + std::to_string(i));
+      BIGNUM* bx = BN_bin2bn((const unsigned char*)x.data(), 20, nullptr);
+      BN_mod_exp(y, m_g, bx, m_p, ctx);
+      if ((unsigned char)pad96(y)[0] == b) {
+        BN_free(m_x);
+        m_x = bx;
+        BN_copy(m_y, y);
+        found = true;
+      } else BN_free(bx);
+    }
+    BN_free(y);
+    BN_CTX_free(ctx);
+    return found;
+  }
   std::string req1() const { return mse_sha1("req1" + S); }
   std::string req2xor3(const std::string& skey) const {
     std::string a = mse_sha1("req2" + skey), b = mse_sha1("req3" + S);
